@@ -186,13 +186,15 @@ fn run_scenario(kind: &str, max: usize, script: &str, nfollow: usize) -> String 
 
 /// broadcast to the nodes carrying all requested tags: exactly those nodes are
 /// addressed (request counters of the fake nodes) and exactly one result each
-fn run_tags(kind: &str, node_tags: &[u64], want: u64) -> String {
+fn run_tags(kind: &str, node_tags: &[u64], want: u64, dup: bool) -> String {
     let names = ["a", "b", "c"];
     let tag_list = |m: u64| -> Vec<String> { (0..3).filter(|i| m >> i & 1 == 1).map(|i| names[i as usize].to_string()).collect() };
     let nodes: Vec<Arc<Node>> = node_tags.iter().map(|_| Node::start()).collect();
     let cfgs: Vec<NodeConfig> = nodes.iter().enumerate().map(|(i, n)| NodeConfig::new("127.0.0.1", n.port).unwrap().with_name(format!("n{i}")).unwrap().with_tags(tag_list(node_tags[i])).with_timeout(Duration::from_secs(2)).unwrap()).collect();
     let opts = FleetOptions { default_timeout: Duration::from_secs(2), retry_policy: RetryPolicy { max_attempts: 1, delay: Duration::from_millis(1) } };
-    let want_tags = tag_list(want);
+    // dup: the caller names every requested tag twice (a tag list is a set: same nodes addressed)
+    let mut want_tags = tag_list(want);
+    if dup { let mut again = want_tags.clone(); again.reverse(); want_tags.extend(again); }
     let mut results: Vec<String> = if kind == "blocking" {
         let fleet = Fleet::with_options(cfgs, opts).unwrap();
         fleet.broadcast_json("/x", Some(&serde_json::json!(1)), &want_tags).into_iter().map(|(k, r)| format!("{}{}", k, if r.value.is_some() { "" } else { "!" })).collect()
@@ -212,7 +214,8 @@ fn run_case(line: &str) -> String {
     if f.contains_key("tags") {
         let nt: Vec<u64> = f["tags"].split('.').map(|s| s.parse().unwrap()).collect();
         let want: u64 = f["want"].parse().unwrap();
-        return guard(move || run_tags(&kind, &nt, want)).unwrap_or_else(|_| "crash=panic".into());
+        let dup = f.get("dup").map(|d| d == "1").unwrap_or(false);
+        return guard(move || run_tags(&kind, &nt, want, dup)).unwrap_or_else(|_| "crash=panic".into());
     }
     let max: usize = f["max"].parse().unwrap();
     let script = if f["script"] == "-" { String::new() } else { f["script"].clone() };
@@ -243,7 +246,11 @@ fn gen_cases(_seed: u64, thorough: bool) -> Vec<String> {
             for idx in 0..total {
                 if !thorough && idx % 5 != 0 { continue; }
                 let mut k = idx; let tags: Vec<String> = (0..n).map(|_| { let t = k % 8; k /= 8; t.to_string() }).collect();
-                for want in 0..8 { if !thorough && want % 3 == 1 { continue; } cases.push(format!("kind={kind} tags={} want={want}", tags.join("."))); }
+                for want in 0..8 {
+                    if !thorough && want % 3 == 1 { continue; }
+                    cases.push(format!("kind={kind} tags={} want={want}", tags.join(".")));
+                    if want != 0 && (thorough || (idx + want) % 4 == 0) { cases.push(format!("kind={kind} tags={} want={want} dup=1", tags.join("."))); }
+                }
             }
         }
     }
